@@ -49,13 +49,16 @@ for c in $P $EXTRA; do
     results="$results{\"check\":\"$c\",\"tier\":\"$tier\",\"exit\":$rc,\"violation_lines\":$nv},"
     if [ $rc -eq 1 ]; then detected_by="$detected_by $c($tier)"; break; fi
     [ "$c" != "$P" ] && break   # extra checks: quick only
+    [ -n "${QUICK_ONLY:-}" ] && break
   done
 done
 if [ "$suite" = PASS ] && [ "$demo_mut" = FAIL ] && [ "$demo_clean" = PASS ]; then
   dst=/verif/seeded/$P-m$I
   mkdir -p $dst
   cp $patch $dst/patch.diff
-  [ -n "$demo" ] && cp "$demo" $dst/
+  # demo Go files are stored with a .txt suffix so that Go tooling run on /verif does not pick them up
+  rm -f $dst/m${I}_demo*
+  if [ -n "$demo" ]; then case "$demo" in *.go) cp "$demo" "$dst/$(basename "$demo").txt";; *) cp "$demo" $dst/;; esac; fi
   python3 - "$P" "$I" "$SRC" "$dst" "$detected_by" "[${results%,}]" <<'EOF'
 import json,sys,re
 P,I,SRC,dst,det,results=sys.argv[1:7]
